@@ -54,6 +54,10 @@ AIMED_ADV = [1, 63, 64, 65, 127, 128, 129, 200, 64 * 65536, 64 * 65535, 64 * 655
              TO_U65535, TO_U65534, 55, 94]
 
 
+# calendar (wall) clock steps in seconds: NTP step / date -s / VM resume forward, backward across one and two 64 s units
+WALL_STEPS = [130, 600, -70, -120]
+
+
 def bits_of(block):
     v = int(block[1:])
     b = 0
@@ -100,6 +104,8 @@ def gen_small(rng):
                 ops.append("%s%d-%d" % (rng.choice("FLP"), b, e))
             elif k == 12 or k == 13:
                 ops.append("C")
+            elif k == 14 and rng.chance(1, 2):
+                ops.append("W%d" % rng.choice(WALL_STEPS))
             else:
                 ops.append("A%d" % rng.choice(AIMED_ADV[:9]))
         if ops:
@@ -141,6 +147,8 @@ def gen_big(rng):
                 ops.append("%s%d-%d" % (rng.choice("FLP"), b, e))
             elif k in (15, 16, 17):
                 ops.append("C")
+            elif k == 18 and rng.chance(1, 2):
+                ops.append("W%d" % rng.choice(WALL_STEPS))
             else:
                 ops.append("A%d" % rng.choice(AIMED_ADV))
         threads.append(ops or ["C"])
@@ -169,6 +177,15 @@ DIRECTED = [
     ("s2", [["A%d" % TO_U65535, "E1", "E3", "A94", "E5", "C"], ["S", "G1", "C", "G1"]]),
     ("d1", [["A%d" % TO_U65534, "E0", "S", "E1", "A64", "C", "G0", "E2", "G0"]]),
     ("d1", [["A%d" % TO_U65535, "E0", "S", "E1", "A119", "C", "G0"]]),
+    # the calendar clock is stepped (forward >= 2 units, backward across a unit) right after a growth, then gc() / another
+    # growth runs while a reader still holds the superseded table: the cooling period must be measured in elapsed time
+    ("d1", [["E0", "S", "E1", "W130", "C", "G0"]]),
+    ("d1", [["E0", "S", "E1", "W600", "E2", "G0", "C", "G0"]]),
+    ("d1", [["A200", "E0", "S", "E1", "W-70", "C", "G0"]]),
+    ("d1", [["A200", "E0", "S", "E1", "W-120", "E2", "G0", "C", "G0"]]),
+    ("d1", [["E0", "E1", "W130", "C", "E2"], ["S", "G0", "G0"]]),
+    ("s2", [["A200", "E1", "E3", "W-70", "E5", "C"], ["S", "G1", "C", "G1"]]),
+    ("d2", [["E1", "W600", "E2", "A10", "W-600", "E4", "C"], ["S", "G0", "C"]]),
 ]
 
 
@@ -186,6 +203,8 @@ DIRECTED_OBJ = [
     ("d2", "N0.6,G0.1,N1.8,G1.5,X0.1,T0", [["E9", "S", "G1"], ["F4-9", "C"], ["E12"]]),
     ("s2", "N0.5,G0.3,N1.6,A1.0,T1", [["E7", "Z"], ["L2-7", "C"]]),
     ("d3", "D0,M1.0,T1", [["E0", "E5"], ["E5", "E0"], ["R9", "C"]]),
+    ("d1", "D0,G0.1,W130,M1.0,T1", [["E2", "C"], ["S", "G0", "G1"]]),
+    ("d1", "N0.3,G0.0,G0.1,W600,T0", [["S", "C", "G0", "G1"], ["E2", "C"]]),
 ]
 
 
@@ -417,7 +436,9 @@ def main(argv):
                        "ensure/reserve/[]/size/snapshot/snapshot[]/for_each/fill_n/copy_n/gc/advance over 2-3 threads, block "
                        "sizes 1,2,4 (hints 1,2,3); directed programs aimed at growth-vs-growth races, retire-vs-retire across a "
                        "64 s unit boundary, gc at 127/128 s, 16-bit stamp wrap (retirement in stamp unit 65535, gc/growth 1/40/63 s "
-                       "into unit 0 with a reader holding the old snapshot; controls 65534->65535, 65535->1), each run under every schedule with <= 2 "
+                       "into unit 0 with a reader holding the old snapshot; controls 65534->65535, 65535->1), calendar-clock steps "
+                       "(+130 s, +600 s, -70 s, -120 s; in setup scripts and mid-program before gc()/growth with a live reader; "
+                       "the monitors measure elapsed virtual monotonic time), each run under every schedule with <= 2 "
                        "pre-emptions in the first 9 scheduling points plus random ones; big programs: 2-5 threads, <= 8 ops, "
                        "block sizes 1..8, clock advances from the aimed set {1,63,64,65,127,128,129,200,2^16 units +-}; "
                        "whole-object programs: directed + seeded random scripts of construct (T() or functor k) / ensure / move-"
